@@ -562,9 +562,36 @@ def list_loops(target):
     return out
 
 
+class _LiteralLifter(ast.NodeTransformer):
+    """float literal 1.69 -> __pyvc_lit__('1.69'): the literal is read as the exact decimal written in the source
+    (float-constant rule i, applied before any double-precision arithmetic can round it)."""
+
+    def __init__(self):
+        self.count = 0
+
+    def visit_Constant(self, node):
+        if isinstance(node.value, builtins.float):
+            self.count += 1
+            return ast.copy_location(ast.Call(ast.Name("__pyvc_lit__", ast.Load()), [ast.Constant(repr(node.value))], []), node)
+        return node
+
+    def visit_JoinedStr(self, node):
+        return node
+
+
+def _lit(text):
+    return Sym(E.const(Fraction(text), E.R))
+
+
 def cut_loops(target: str, loops: dict):
-    """Recompile `target` with loop contracts.  loops: {ordinal: (expected iterable/test text, LoopContract)}.
+    return recompile(target, loops=loops)
+
+
+def recompile(target: str, loops: dict = None, lift_literals=False):
+    """Recompile `target` from its current source with loop contracts and/or exact float literals.
+    loops: {ordinal: (expected iterable/test text, LoopContract)}.
     Returns the new function object (globals = the defining module's real dict, so World swaps apply)."""
+    loops = loops or {}
     holder, name, fn = resolve(target)
     fn = inspect.unwrap(fn)
     src = textwrap.dedent(inspect.getsource(fn))
@@ -583,17 +610,23 @@ def cut_loops(target: str, loops: dict):
             raise Unmodelled("contract anchor not found: loop %d of %s" % (ordn, target))
         if text is not None and cutter.found[ordn].replace(" ", "") != text.replace(" ", ""):
             raise Unmodelled("contract anchor moved: loop %d of %s is now over '%s' (contract expects '%s')" % (ordn, target, cutter.found[ordn], text))
+    if lift_literals:
+        new = _LiteralLifter().visit(new)
     # wrap in a factory so that zero-argument super() keeps working
     factory = ast.parse("def __pyvc_factory__(__class__):\n    pass\n    return %s\n" % fdef.name)
     factory.body[0].body[0] = new.body[0]
     ast.fix_missing_locations(factory)
-    code = compile(factory, "<pyvc-cut:%s>" % target, "exec")
+    code = compile(factory, "<pyvc-recompiled:%s>" % target, "exec")
     g = fn.__globals__
     ns = {}
     exec(code, g, ns)
     cls = holder if isinstance(holder, type) else None
     newfn = ns["__pyvc_factory__"](cls)
-    newfn.__defaults__ = fn.__defaults__
+    if lift_literals and fn.__defaults__:
+        newfn.__defaults__ = fn.__defaults__
+    else:
+        newfn.__defaults__ = fn.__defaults__
     newfn.__kwdefaults__ = fn.__kwdefaults__
     g.setdefault("__pyvc__", RUNTIME)
+    g.setdefault("__pyvc_lit__", _lit)
     return newfn
